@@ -148,16 +148,33 @@ func runC04(w *World) {
 		var nb []byte
 		pends = nil
 		prev := 0
+		// zero runs of a few bytes, and - in some logs - of lengths around the block sizes a
+		// loader or a repair pass may work in (4096, 8192, 65535, 65536 and their neighbours)
+		zrun := func(max int) int {
+			if pr.Intn(3) == 0 {
+				return []int{4094, 4095, 4096, 4097, 8191, 8192, 12287, 65534, 65535, 65536, 131070}[pr.Intn(11)]
+			}
+			return 1 + pr.Intn(max)
+		}
+		longRuns := pr.Intn(3) == 0
 		for _, e := range ends {
 			if pr.Intn(4) == 0 {
-				nb = append(nb, make([]byte, 1+pr.Intn(9))...)
+				if longRuns && pr.Intn(3) == 0 {
+					nb = append(nb, make([]byte, zrun(9))...)
+				} else {
+					nb = append(nb, make([]byte, 1+pr.Intn(9))...)
+				}
 			}
 			nb = append(nb, raw[prev:e]...)
 			pends = append(pends, len(nb))
 			prev = e
 		}
 		if pr.Intn(2) == 0 {
-			nb = append(nb, make([]byte, 1+pr.Intn(20))...)
+			if longRuns {
+				nb = append(nb, make([]byte, zrun(20))...)
+			} else {
+				nb = append(nb, make([]byte, 1+pr.Intn(20))...)
+			}
 		}
 		padded = nb
 		L = len(padded)
